@@ -60,7 +60,8 @@ def reach_set(prog, roots, stop=()):
 # L = ({atom: coef}, const) meaning sum(coef*atom) + const; constraints are L <= 0.  All atoms are
 # unsigned machine integers (usize / u8 / u16 / u32), hence >= 0.
 
-LEN_CALLS = ("Vec::<T, A>::len", "<impl [T]>::len", "<impl str>::len", "String::len", "BytesMut::len", "Bytes::len", "VecDeque::<T, A>::len")
+LEN_CALLS = ("Vec::<T, A>::len", "<impl [T]>::len", "<impl str>::len", "String::len", "BytesMut::len", "Bytes::len", "VecDeque::<T, A>::len",
+             "HashSet::<T, S, A>::len", "HashMap::<K, V, S, A>::len", "HashSet::<T, S>::len", "HashMap::<K, V, S>::len")
 
 
 def _atom(e):
@@ -310,6 +311,8 @@ def ubound(fn, res, e, depth=0):
     if k == "un" and e[1] == "PtrMetadata":
         return LEN_MAX
     if k == "field":
+        if len(e) > 3 and e[3] in TYPE_MAX and e[3] != "usize":
+            return TYPE_MAX[e[3]]
         if e[2] in LENGTH_FIELDS:
             return LEN_MAX
         if e[2] == "0" and A.peel_refs(e[1])[0] == "bin":
@@ -408,7 +411,11 @@ class Discharger:
         if kind == "assert:BoundsCheck":
             ln = res.operand(t["ops"][0], (b, "term"))
             ix = res.operand(t["ops"][1], (b, "term"))
-            return pv.prove(b, _c(lin(ix), lin(ln), 1), [ix])
+            ok, how = pv.prove(b, _c(lin(ix), lin(ln), 1), [ix])
+            if ok:
+                return ok, how
+            j = self.justify(f, res, pv, b, kind, t)
+            return j if j else (False, how)
         if kind.startswith("assert:Overflow"):
             op = t["msg"]
             a = res.operand(t["ops"][0], (b, "term"))
